@@ -14,7 +14,7 @@ CHECKS = {
         "recorded executions of random drivers and of the repository's data-store tests are validated by Trace_DataStore.tla. "
         "SqliteLock.tla models the sqlite store's lock over two processes (lazy connection, overwrite refused on a locked file, append re-locks, "
         "unlock/force, close keeps the lock, a refused object used again) and is replayed with simulated pids; describe/validate are derived views of the state. "
-        "Four instantiations of the constants (affix ids, table-name-prefixed ids + empty payload, dotted ids, ONE id replayed exhaustively without a budget in both tiers); "
+        "Four instantiations of the constants (affix ids, table-name-prefixed ids + empty payload, dotted ids, ONE id replayed exhaustively without a budget in both tiers, identifiers with glob characters); append over an identifier that only has a failure record is pinned per store kind (WriteKind); "
         "a second pass of the directory store looks through the recorded shared-md5-file finding so that histories through it are explored too.",
         design_ref="DESIGN.md section 2 / C13",
         note="Trusted: TLC, the projection in harness/check_C13.py (reads through the public API only), md5 via hashlib. "
@@ -29,7 +29,7 @@ CHECKS = {
         "Fresh/UndoSound/ReturnIsTop on the closed reachable set of three DAG shapes (all histories of all change vectors) and "
         "every transition is replayed on a real Calculator comparing both buffers, array identities, _switch, last_values, "
         "last_undo, spare.  ParamScope.tla models the scope partition / motif probs / alignment / updates_postponed (incl. "
-        "exception exit, and RefusedRule: a rule refused part-way through its scopes is a stuttering step) / optimiser round trips; its transitions are replayed on real likelihood functions and after each "
+        "exception exit, RefusedRule: a rule refused part-way through its scopes is a stuttering step, CalcNudge: an optimiser step below the abstraction's resolution, motif probabilities handed over in a numpy buffer the caller reuses) / optimiser round trips; its transitions are replayed on real likelihood functions and after each "
         "step lnL, nfp, per-edge values and exported rules are compared with a function newly built from the spec state, on three kinds of function "
         "(plain, two rate classes, two classes along a site-HMM).  Calculators of real optimiser runs (incl. site-HMM and two-locus functions) are "
         "validated against Recalc.tla by Trace_Recalc.tla with the DAG taken from the real calculator.",
@@ -50,7 +50,7 @@ CHECKS = {
         "synonymous partition), dinucleotide and position-specific codon models, user-built predicate algebra, the admission rule of the "
         "time-reversible classes (Refuse action: mirrored directed terms must be refused) and a general model at a non-diagonalisable point, "
         "where every expm back-end is compared with exp(Qt) of the spec's exact Q. Rate classes are given by count, by names in a non-alphabetical "
-        "declared order and beyond ten: multipliers average to one and each class USES the multiplier it reports.",
+        "declared order and beyond ten: multipliers average to one and each class USES the multiplier it reports; matrices the function returns may be edited by the caller without changing the function's own process.",
         design_ref="DESIGN.md section 2 / C05",
         note="Trusted: TLC, Fraction->float conversion, ln(q) for branch lengths. exp(Qt) of models without a rational closed form "
         "(GTR, GN, ssGN, codon, protein) is NOT decided by the spec: the obligations are evaluated relationally in floating point in "
@@ -68,7 +68,7 @@ CHECKS = {
         "paths, stochastic patch chain, switch 0/1 limits, total probability one; ordered alignments compared exactly) and several loci sharing a "
         "tree; for every MarkovQ instance (codon under two genetic codes, dinucleotide, user-built, GN) per-column likelihoods are compared with a "
         "pruning over exp(Qt) of the spec's exact Q; classes that differ in one rate term (ordered_param) obey the spec's mixture law "
-        "Lik = sum_b w_b Lik_b with each class's process rebuilt from what the function reports (named and counted classes).",
+        "Lik = sum_b w_b Lik_b with each class's process rebuilt from what the function reports (named and counted classes); unknown motif positions written - or ?, recode_gaps default or False; motif probabilities handed over in a reused numpy buffer.",
         design_ref="DESIGN.md section 2 / C02",
         note="Trusted: TLC, Fraction->float, ln for branch lengths and lnL. Exact oracle only for the Tamura-Nei family on <= 4 tips. "
         "For GTR/GN/codon/protein/dinucleotide models the independent number is not available: their Q is decided by C05, the pruning "
@@ -86,7 +86,7 @@ CHECKS = {
         "Root moves also run on trees with per-edge parameter scopes (the spec's Reroot moves each edge's instance with the edge; the real "
         "annotated tree carries the parameters), the root is moved onto edges, splits include pieces of 1e-9/1e-12, and (tip, tip | outgroup) "
         "parameter scopes are defined root-free in the spec, proved invariant under Reroot and replayed on every rooting of real trees; rooted two-child "
-        "trees are written with their root children in both orders and taken through unrooted / unrooted_deepcopy / root_at_midpoint / rooted_with_tip.",
+        "trees are written with their root children in both orders and taken through unrooted / unrooted_deepcopy / root_at_midpoint / rooted_with_tip; numpy-typed branch lengths; motif probabilities taken from data that lack a base.",
         design_ref="DESIGN.md section 2 / C11",
         note="Trusted: TLC, cogent3's own tree re-rooting (rooted_at / rooted_with_tip, decided by C09) to produce the transformed "
         "problems. For models without an exact oracle the check is relational in floating point (rtol 1e-9): the spec dictates which "
@@ -103,7 +103,7 @@ CHECKS = {
         "calculator evaluation, in-bounds flag, start/final lnL; local, global, both; with and without evaluation limits) are "
         "validated by Trace_Optimiser.tla against NeverLoses / WithinBounds (evaluations the calculator refuses are RejectedT steps; a run that "
         "ends by raising is not a behaviour); GeneralStationary initialised from a fitted GTR under several evaluation limits; nested terms "
-        "held constant are projected like estimates; a batch of rules refused before the initialisation is a stuttering step; hypothesis apps must give LR >= 0.",
+        "held constant are projected like estimates; a batch of rules refused before the initialisation is a stuttering step; edge names made of the same characters; an optimum sitting on a declared bound is reported within [lower, upper] exactly; hypothesis apps must give LR >= 0.",
         design_ref="DESIGN.md section 2 / C16",
         note="Trusted: TLC, harness wrappers around Calculator.testoptparvector and ParameterController.optimise (harness side, "
         "no source change). Whether the optimiser finds the optimum is not checked. Small 3-taxon problems.",
@@ -119,7 +119,7 @@ CHECKS = {
         "layouts against a reference; real pairwise_to_multiple outputs are validated against RefMerge!Valid by TLC. AlignCalls.tla models "
         "histories of alignment calls on ONE score-table object that is edited in place between calls, with gap penalties incl. zero, through the "
         "functions and the smith_waterman / align_to_ref apps (model handed over explicitly, or as the documented default selected by moltype name or "
-        "object): every call must be optimal for the model as it is at that time. Progressive "
+        "object; scores as int8 / float32 / float; reference named or left at its default): every call must be optimal for the model as it is at that time. Progressive "
         "outputs are validated structurally.",
         design_ref="DESIGN.md section 2 / C18",
         note="Trusted: TLC; path scores (ln, dot product, max) are float work in the harness over TLC's complete path set; transition "
@@ -191,7 +191,7 @@ CHECKS = {
         "anywhere) for 26 kinds: old/new sequences with annotations and offsets, alignments (both classes), collections (old/new), "
         "trees, tables, distance matrices (incl. made asymmetric by in-place cell edits) and dict arrays, indel and feature maps, Aligned, "
         "annotation dbs, likelihood functions (re-scoped, optimised; several loci; free / gamma rate classes; site-HMM), substitution models, "
-        "moltype, alphabets (incl. the same motifs in a non-standard order, and a user-defined model over one), NotCompleted, model_result, generic_result. Each behaviour is replayed on a "
+        "moltype, alphabets (incl. the same motifs in a non-standard order, and a user-defined model over one), trees with unusual clade / tip names, NotCompleted, model_result, generic_result. Each behaviour is replayed on a "
         "real object and the copy's observable projection is compared, after the round trip and after every later operation, with a "
         "reference object that was never serialised.",
         design_ref="DESIGN.md section 2 / C10",
